@@ -231,6 +231,9 @@ def encode(lines, drop, dbl):
         for w, is_ctrl in words:
             enc = {"ENM": C.ctrl("ENM"), "RCL": C.ctrl("RCL"), "EDM": C.ctrl("EDM"), "EOC": C.ctrl("EOC"),
                    "PAC": C.pac(15)}.get(w)
+            if w == "NUL":
+                ws.append("8080")
+                continue
             if enc is None:
                 for tw in C.text_words("TEXT" + w[1:]):
                     ws.append(tw)
@@ -291,6 +294,28 @@ def bounded(ctx, b):
                     return ok, {"got": got, "expected": [(float(s), float(e)) for s, e in ref], "doc": doc[:500]}
                 b.guard((drop, dbl, sep_edm, gaps, offset), one, sample={"drop": drop, "doubled": dbl, "separate_edm": sep_edm, "gaps": gaps, "offset_s": offset,
                                                                          "offset_beyond_caption_end": offset == 45})
+    # a caption shown for a few frames only, the next one loaded right behind it on the same line: whether it is
+    # a flash is decided AFTER a gap under five frames has been closed
+    for drop, dbl in itertools.product([True, False], repeat=2):
+        for shown, gap in itertools.product([0, 1, 2, 5], [0, 1, 2, 5]):
+            words = [("ENM", True), ("RCL", True), ("PAC", True), ("T1", False), ("EOC", True)] + [("NUL", False)] * shown + \
+                    [("EDM", True)] + [("NUL", False)] * gap + [("RCL", True), ("PAC", True), ("T2", False), ("EOC", True)] + \
+                    [("NUL", False)] * 30 + [("EDM", True)]
+
+            def quick(words=words, drop=drop, dbl=dbl):
+                doc, timeline = encode([(60, words)], drop, dbl)
+                ref = reference_times(timeline, drop, 0)
+                flashes = any(0 < e - s < 50000 for s, e in ref)
+                try:
+                    cs = SCCReader().read(doc)
+                except CaptionReadTimingError:
+                    return flashes, {"raised_timing_error_but_no_caption_is_shorter_than_0.05s": [(float(s), float(e)) for s, e in ref], "doc": doc}
+                if flashes:
+                    return False, {"flash_caption_returned": [(float(s), float(e)) for s, e in ref]}
+                got = [(c_.start, c_.end) for c_ in cs.get_captions("en-US")]
+                ok = len(got) == len(ref) and all(abs(Fraction(g[0]) - r_[0]) <= 1 and abs(Fraction(g[1]) - r_[1]) <= 1 for g, r_ in zip(got, ref))
+                return ok, {"got": got, "expected": [(float(s), float(e)) for s, e in ref], "doc": doc}
+            b.guard(("quick", drop, dbl, shown, gap), quick, sample={"frames_shown": shown + 1, "frames_to_next_caption": gap + 4, "drop": drop, "doubled": dbl})
     # an unterminated final caption split over non-adjacent rows lasts four seconds in all its parts
     for drop in (True, False):
         def two(drop=drop):
